@@ -101,6 +101,8 @@ func C06(c *Ctx) {
 	c.reportEffects("C06-R1", a, nil)
 	c.dischargeWrites("C06-R1", a)
 	c.wrapperEffects("C06-R4", false)
+	c.R.Rule("C06-R7", "E7", "who may call: a step reads neither the clock nor a random source (equal inputs, equal result)", 1)
+	c.noClockOrChance("C06-R7", "Step/Walk: the result depends on the inputs only (no clock, no random source)", a, step, "what a step or walk returns depends on the time or on chance: repeating a call with equal inputs (a retry, the same message for a second machine) yields another result")
 
 	// R2: aliasing of returned bindings maps.
 	stateBs := a.RootObj("state", ".Bs")
@@ -210,6 +212,8 @@ func C03(c *Ctx) {
 	mm, ms, m := entries[0], entries[1], entries[2]
 	c.reportEffects("C03-R1", a, nil)
 	c.dischargeWrites("C03-R1", a)
+	c.R.Rule("C03-R8", "E7", "who may call: the matcher reads neither the clock nor a random source", 1)
+	c.noClockOrChance("C03-R8", "Match: the outcome depends on the arguments only (no clock, no random source)", a, mm, "the matcher's outcome depends on the time or on chance: evaluating the same pattern, message and bindings again can give another result or another error")
 	given := a.RootObj("bindings", "")
 	for _, f := range []*ssa.Function{mm, ms, m} {
 		locs := a.Deref(a.ReturnLocs(f, 0), "[]")
